@@ -146,8 +146,11 @@ int Util::parseSizeOrPercent(
     int64_t total) {
   try {
     if (input.size() > 0 && input.at(input.size() - 1) == '%') {
-      int64_t pct = std::stoi(input.substr(0, input.size() - 1));
-      if (pct < 0 || pct > 100) {
+      size_t pct_end;
+      auto pct_str = input.substr(0, input.size() - 1);
+      int64_t pct = std::stoi(pct_str, &pct_end);
+      // "5.5%" or "5x%" is not a whole number of percent
+      if (pct_end != pct_str.length() || pct < 0 || pct > 100) {
         return -1;
       }
 
@@ -160,7 +163,11 @@ int Util::parseSizeOrPercent(
       // compat - a bare number is interpreted as megabytes
       v = std::stoll(input, &end_pos);
       if (end_pos == input.length()) {
-        *output = v << 20;
+        // the megabyte count must still fit once scaled to bytes
+        if (v > (INT64_MAX >> 20) || v < (INT64_MIN >> 20)) {
+          return -1;
+        }
+        *output = v * (1LL << 20);
         return 0;
       }
 
